@@ -222,7 +222,14 @@ func (w *World) buildOp(op *Op) *BuiltOp {
 		}
 		setParties(ent)
 		b.Module = "ent"
-		id := w.orderRef(op.Ref, op.Rule == 1)
+		ref := op.Ref
+		if ref >= 0 {
+			ref += w.RepeatIdx // a bulk-repeated decision walks over the orders instead of hitting one order again and again
+		}
+		id := w.orderRef(ref, op.Rule == 1)
+		if op.Rule == 3 {
+			id = op.Lit
+		}
 		b.ID = id
 		dec := enttypes.StatusRejected
 		if op.Flag {
@@ -270,21 +277,38 @@ func (w *World) buildOp(op *Op) *BuiltOp {
 				regActor = a
 			}
 		}
-		setParties(regActor)
 		m := w.Wrk
 		b.Module = "wrk"
 		if op.Kind == BcnReg {
 			m = w.Bcn
 			b.Module = "bcn"
 		}
+		var again *Registration
+		if op.Rule == 2 && len(m.Regs) > 0 && op.Ref >= 0 {
+			// the owner of an existing registration submits the very same registration once more
+			again = m.Regs[op.Ref%len(m.Regs)]
+			if a := w.addrByKey(again.Owner); a.Acct != nil {
+				regActor = a
+				w.Class("op.registration-submitted-again")
+			} else {
+				again = nil
+			}
+		}
+		setParties(regActor)
 		b.IsFeeOp = true
 		named := b.Named
 		mon := w.strField("mon", op.Str, 64)
 		name := w.strField("name", op.Str/12, 128)
+		if again != nil {
+			mon, name = again.Fields[0], again.Fields[1]
+		}
 		var fields []string
 		if op.Kind == WrkReg {
 			gh := w.strField("gen", op.Str/144, 66)
 			typ := w.strField("typ", 0, 20)
+			if again != nil {
+				gh, typ = again.Fields[2], again.Fields[3]
+			}
 			b.Msg = &wrkchaintypes.MsgRegisterWrkChain{Moniker: mon, Name: name, GenesisHash: gh, BaseType: typ, Owner: named.Str(op.Upper)}
 			fields = []string{mon, name, gh, typ}
 		} else {
